@@ -465,7 +465,7 @@ def values_to_fracs(vals):
     return out
 
 
-def analyse_mapping(ctx: Ctx, what, pm, vals, state, reqs, pend, order2=True, sample=None):
+def analyse_mapping(ctx: Ctx, what, pm, vals, state, reqs, pend, order2=True, sample=None, spec=None):
     """run the real functions on one (mapping, parameter values) and queue the model requests"""
     from quri_parts.circuit.parameter_shift import ShiftedParameters
     from quri_parts.core.estimator.gradient import parameter_shift_gradient_estimates
@@ -474,7 +474,7 @@ def analyse_mapping(ctx: Ctx, what, pm, vals, state, reqs, pend, order2=True, sa
     ins, outs, entries, iid, rid = dump_mapping(pm)
     menc = enc_mapping(ins, outs, entries)
     venc = ",".join(fr(Fraction(v)) for v in vals) or "-"
-    info = {"what": what, "mapping": menc, "vals": venc, "P": len(ins), "outs": outs, "real": {}, "req": {}}
+    info = {"what": what, "mapping": menc, "vals": venc, "P": len(ins), "outs": outs, "real": {}, "req": {}, "spec": spec}
     real = info["real"]
     phis = py_phi(ins, outs, entries, vals)
     info["phis"] = phis
@@ -561,6 +561,7 @@ def compare_pending(ctx: Ctx, reqs, pend):
         P, real, rq = info["P"], info["real"], info["req"]
         inp = {"mapping": info["mapping"], "vals": info["vals"], "source": info["what"]}
         ctx.traces += 1
+        info["_d0"] = len(ctx.disagreements)
 
         def model(name):
             r = resp[rq[name]]
@@ -661,11 +662,32 @@ def compare_pending(ctx: Ctx, reqs, pend):
                 rvf = None if any(x is None for x in rows) else rows
             if rvf != mv:
                 ctx.disagree(f"{name} (mock estimator)", inp, str(rv)[:400], r[:400])
+        if len(ctx.disagreements) > info["_d0"] and info.get("spec") is not None and info["what"] in ("linear", "primitive"):
+            TARGETS.append((info["what"], info["spec"]))
 
 
 # ---------------------------------------------------------------------------
 # generators of correspondence cases
 # ---------------------------------------------------------------------------
+TARGETS: list = []  # (flavour, spec) of real circuits on which model and code disagreed: first stop of the failing-input search
+
+
+def targeted_search(ctx: Ctx, limit=40):
+    """the circuits whose mapping / shift data disagreed with the model, re-examined against the property itself
+    (analytic derivatives) at a generic parameter point with pairwise different components"""
+    rng = ctx.rng
+    worst = {"grad": 0.0, "hess": 0.0, "symm": 0.0, "num_ratio": 0.0}
+    for flavour, spec in TARGETS[:limit]:
+        try:
+            c = build_primitive(spec) if flavour == "primitive" else build_linear(spec)
+        except Exception:  # noqa: BLE001
+            continue
+        theta = [rng.uniform(-3, 3) + 0.37 * i for i in range(spec["P"])]
+        validate_one(ctx, spec, c, flavour + "+targeted", theta, numpy_estimator(spec), worst, lambda: True)
+        ctx.evaluations += 1
+    ctx.extra["targeted_search"] = {"targets": len(TARGETS), "examined": min(len(TARGETS), limit)}
+
+
 def k_circuits(ctx: Ctx, n_cases: int):
     """mappings of real circuits built through the public API (linear mapped, primitive, A + B, sub + sub)"""
     from quri_parts.core.state import quantum_state
@@ -706,7 +728,7 @@ def k_circuits(ctx: Ctx, n_cases: int):
         state = quantum_state(spec["n"] if what != "combined" else c.qubit_count, circuit=c)
         big = len(pm.out_params) > 5 or P > 3
         analyse_mapping(ctx, what, pm, vals, state, reqs, pend, order2=not big,
-                        sample={"source": what, "spec_gates": [g["k"] for g in spec["gates"]]} if i < 3 else None)
+                        sample={"source": what, "spec_gates": [g["k"] for g in spec["gates"]]} if i < 3 else None, spec=spec)
     compare_pending(ctx, reqs, pend)
 
 
@@ -955,7 +977,17 @@ def validate(ctx: Ctx, budget_s: float, max_cases: int):
     worst = {"grad": 0.0, "hess": 0.0, "symm": 0.0, "num_ratio": 0.0}
     while time.time() - t0 < budget_s and n_eval < max_cases:
         r = rng.random()
-        if r < 0.65:
+        if r < 0.1:
+            # every declared parameter drives exactly one gate with coefficient 1, in an order different from the
+            # declaration order (a "trivial" mapping that is not the identity)
+            spec = primitive_spec(rng)
+            perm = list(range(spec["P"]))
+            rng.shuffle(perm)
+            for g in spec["gates"]:
+                if "ang" in g:
+                    g["ang"] = {"p": perm[g["ang"]["p"]]}
+            c, flavour = build_linear(spec), "linear-permuted"
+        elif r < 0.65:
             spec = gen_spec(rng, P=rng.choice([1, 2, 2, 3]), min_param_gates=1)
             c, flavour = build_linear(spec), "linear"
         elif r < 0.8:
@@ -1193,6 +1225,9 @@ def run(ctx: Ctx, replay=None) -> int:
     with ctx.timed("f6_replay"):
         f6_replay(ctx, ctx.n(5, 60))
     broken = bool(ctx.failed_obligations or ctx.disagreements)
+    if TARGETS:
+        with ctx.timed("targeted_search"):
+            targeted_search(ctx)
     with ctx.timed("oracle_validation"):
         budget = (25 if ctx.quick() else 280) * (2 if broken else 1)
         validate(ctx, budget, ctx.n(600, 50000) * (2 if broken else 1))
